@@ -10,10 +10,7 @@ def run_cli_many(jobs, nthreads=16):
     """jobs: list of (args, cwd); returns list of (rc, stdout, stderr)."""
     def one(j):
         args, cwd = j
-        try:
-            return drive.cli(args, cwd=cwd, timeout=60)
-        except Exception as e:
-            return (-99, "", "harness: %s" % e)
+        return drive.cli(args, cwd=cwd)
     with ThreadPoolExecutor(max_workers=nthreads) as ex:
         return list(ex.map(one, jobs))
 
